@@ -143,6 +143,8 @@ type Sys struct {
 	kept        []*ecs.Query
 	KeptTrouble string
 	KeptSeen    int
+	builders      map[string]*ecs.Builder
+	BuilderReused int
 	DetachSeen  int
 }
 
@@ -830,13 +832,27 @@ func (s *Sys) relID(op *COp) ecs.ID {
 
 func (s *Sys) builder(op *COp) *ecs.Builder {
 	var b *ecs.Builder
+	key := ""
 	if op.With {
 		b = ecs.NewBuilderWith(s.W, s.comps(op.Add, op.Vals)...)
 	} else {
+		// ID-based builders are long-lived objects in user code: two calls in three re-use the builder made earlier for
+		// the same component list and relation - across any number of operations, target deaths and resets
+		key = fmt.Sprint(op.Add, op.Rel)
+		if kept, ok := s.builders[key]; ok && s.applySeq%3 != 0 {
+			s.BuilderReused++
+			return kept
+		}
 		b = ecs.NewBuilder(s.W, s.tIDs(op.Add)...)
 	}
 	if op.Rel >= 0 {
 		b = b.WithRelation(s.IDs[op.Rel])
+	}
+	if key != "" {
+		if s.builders == nil || len(s.builders) > 64 {
+			s.builders = map[string]*ecs.Builder{}
+		}
+		s.builders[key] = b
 	}
 	return b
 }
